@@ -122,7 +122,9 @@ def build(spec, cache_materials=True, with_settings=True, optic=None, ints=False
         o.reset()          # documented: back to the initial (empty) state
     t_obj = fl(spec['obj']['t'])
     n0 = float(spec['obj'].get('n', 1.0))
-    if n0 != 1.0:
+    if spec['obj'].get('mat'):
+        o.add_surface(index=0, radius=np.inf, thickness=t_obj, material=lib_material(spec['obj']['mat'], cache_materials))
+    elif n0 != 1.0:
         o.add_surface(index=0, radius=np.inf, thickness=t_obj, material=IdealMaterial(n=n0, k=0.0))
     else:
         o.add_surface(index=0, radius=np.inf, thickness=t_obj)
